@@ -904,7 +904,15 @@ func bindResults(env *Env, fn *ssa.Function, vals []Value) {
 		}
 	}
 	if len(vals) >= 1 {
-		env.vars["r"] = vals[0]
+		clash := false
+		for _, p := range fn.Params {
+			if p.Name() == "r" {
+				clash = true // a parameter named r keeps its meaning; use "result"
+			}
+		}
+		if !clash {
+			env.vars["r"] = vals[0]
+		}
 		env.vars["result"] = vals[0]
 	}
 	if len(vals) >= 2 {
@@ -1079,7 +1087,29 @@ func (x *Exec) verifyContract(ct *Contract) (err error) {
 		case "let":
 			var next []finalState
 			for _, f := range finals {
-				for _, so := range x.evalLetFork(f.st, f.env, sst.let.expr) {
+				var outs []specOut
+				var why string
+				func() {
+					defer func() {
+						if r := recover(); r != nil {
+							e, ok := r.(engineErr)
+							if !ok || !strings.Contains(e.Error(), "unknown identifier") && !strings.Contains(e.Error(), "undefined on this path") {
+								panic(r)
+							}
+							why = e.Error()
+						}
+					}()
+					outs = x.evalLetFork(f.st, f.env, sst.let.expr)
+				}()
+				if why != "" {
+					// a Go local that does not exist on this path (early return): the let is
+					// undefined here and may only occur where evaluation is short-circuited
+					e3 := f.env.child()
+					e3.vars[sst.let.name] = &Poison{msg: "let " + sst.let.name + " is undefined on this path (" + why + ")"}
+					next = append(next, finalState{f.st, e3})
+					continue
+				}
+				for _, so := range outs {
 					e3 := f.env.child()
 					e3.vars[sst.let.name] = so.val
 					next = append(next, finalState{so.st, e3})
@@ -1123,12 +1153,33 @@ func (x *Exec) verifyContract(ct *Contract) (err error) {
 			x.specMode++
 			for _, f := range finals {
 				le := &Env{vars: map[string]Value{}, pkg: f.env.pkg}
-				for i, p := range lem.params {
-					val := x.eval(f.st, f.env, sst.args[i])
-					if p.typ == "real" || p.typ == "float64" {
-						val = x.coerceTo(val, types.Typ[types.Float64])
+				skip := false
+				func() {
+					defer func() {
+						if r := recover(); r != nil {
+							e, ok := r.(engineErr)
+							if !ok || !strings.Contains(e.Error(), "unknown identifier") && !strings.Contains(e.Error(), "undefined on this path") {
+								panic(r)
+							}
+							skip = true // the lemma's arguments do not exist on this path (early return)
+						}
+					}()
+					for i, p := range lem.params {
+						val := x.eval(f.st, f.env, sst.args[i])
+						if p.typ == "real" || p.typ == "float64" {
+							val = x.coerceTo(val, types.Typ[types.Float64])
+						}
+						le.vars[p.name] = val
 					}
-					le.vars[p.name] = val
+				}()
+				if skip {
+					continue
+				}
+				// the lemma's own lets (abbreviations used by its conclusions)
+				for _, ls := range lem.script {
+					if ls.kind == "let" {
+						le.vars[ls.let.name] = x.eval(f.st, le, ls.let.expr)
+					}
 				}
 				var pre, post []*Term
 				for _, cl := range lem.requires {
